@@ -163,6 +163,20 @@ def par_map(fn, args_list, workers=None):
     return results
 
 
+def reused_dir(tag):
+    """An empty scratch directory whose PATH is the same for every case a worker process runs (the caller removes it
+    when the case is done, as it would a mkdtemp directory).  Files of successive cases therefore carry the same
+    path and different contents - which is what a user's working directory looks like, and what anything that
+    remembers a file by its path must cope with."""
+    import shutil
+    import tempfile
+
+    path = os.path.join(tempfile.gettempdir(), "verif-%s-%d" % (tag, os.getpid()))
+    shutil.rmtree(path, ignore_errors=True)
+    os.makedirs(path)
+    return path
+
+
 class Ctx(object):
     def __init__(self, prop_id, tier, seed):
         self.prop_id = prop_id
